@@ -242,7 +242,7 @@ type packetConn struct {
 	lastPacket *packet
 	lastBuf    *bytes.Reader
 
-	// stores time.Time as Unix as Read maybe called concurrently with SetReadDeadline
+	// stores time.Time as UnixNano (0 means no deadline) as Read maybe called concurrently with SetReadDeadline
 	deadline      atomic.Int64
 	deadlineTimer *time.Timer
 	idleTimer     *time.Timer
@@ -250,7 +250,11 @@ type packetConn struct {
 
 // SetReadDeadline sets the deadline to wait for data from the underlying net.PacketConn.
 func (pc *packetConn) SetReadDeadline(t time.Time) error {
-	pc.deadline.Store(t.Unix())
+	if t.IsZero() {
+		pc.deadline.Store(0)
+	} else {
+		pc.deadline.Store(t.UnixNano())
+	}
 	if pc.deadlineTimer != nil {
 		pc.deadlineTimer.Reset(time.Until(t))
 	} else {
@@ -262,8 +266,8 @@ func (pc *packetConn) SetReadDeadline(t time.Time) error {
 // TODO: idle timeout should be configurable per server
 const udpAssociationIdleTimeout = 30 * time.Second
 
-func isDeadlineExceeded(t time.Time) bool {
-	return !t.IsZero() && t.Before(time.Now())
+func isDeadlineExceeded(nanos int64) bool {
+	return nanos != 0 && time.Unix(0, nanos).Before(time.Now())
 }
 
 func (pc *packetConn) Read(b []byte) (n int, err error) {
@@ -279,7 +283,7 @@ func (pc *packetConn) Read(b []byte) (n int, err error) {
 		return
 	}
 	// check deadline
-	if isDeadlineExceeded(time.Unix(pc.deadline.Load(), 0)) {
+	if isDeadlineExceeded(pc.deadline.Load()) {
 		return 0, os.ErrDeadlineExceeded
 	}
 	// set or refresh idle timeout
@@ -311,7 +315,7 @@ func (pc *packetConn) Read(b []byte) (n int, err error) {
 			return
 		case <-pc.deadlineTimer.C:
 			// deadline may change during the wait, recheck
-			if isDeadlineExceeded(time.Unix(pc.deadline.Load(), 0)) {
+			if isDeadlineExceeded(pc.deadline.Load()) {
 				return 0, os.ErrDeadlineExceeded
 			}
 			// next loop will run. Don't call Read as that will reset the idle timer.
